@@ -392,6 +392,8 @@ package machine
 // removal by a Remove mutation are skipped).
 //@ pred AddOf(rr *DefaultRelationsResolver, s string, a string) := mem(rr.Machine.schema[s].Add, a) &&
 //@      !(rr.Transition.Mutation.Type == MutationRemove && mem(rr.Transition.Mutation.Called, index(rr.Index, a)))
+// Uncalled: the state is not one a Remove mutation was called with.
+//@ pred Uncalled(t *Transition, index S, x string) := !(t.Mutation.Type == MutationRemove && mem(t.Mutation.Called, index(index, x)))
 //@ pred AddClosed(rr *DefaultRelationsResolver, r S) := forall s, a string :: mem(r, s) && AddApplies(rr, s) && AddOf(rr, s, a) ==> mem(r, a)
 
 //@ func (rr *DefaultRelationsResolver) parseAdd(states S) (ret S)
@@ -401,12 +403,15 @@ package machine
 //@   ensures  justified: forall x string :: mem(ret, x) ==> mem(states, x) || (exists s string :: mem(ret, s) && mem(rr.Machine.schema[s].Add, x))
 //@   ensures  closed:    AddClosed(rr, ret)
 //@   ensures  defined:   SchemaRefs(rr.Machine.schema) && (forall x string :: mem(states, x) ==> has(rr.Machine.schema, x)) ==> (forall x string :: mem(ret, x) ==> has(rr.Machine.schema, x))
+//@   ensures  uncalled:  (forall x string :: mem(states, x) ==> Uncalled(rr.Transition, rr.Index, x)) ==> (forall x string :: mem(ret, x) ==> Uncalled(rr.Transition, rr.Index, x))
 //@   loop 1 invariant sup:       forall x string :: mem(states, x) ==> mem(ret, x)
 //@   loop 1 invariant justified: forall x string :: mem(ret, x) ==> mem(states, x) || (exists s string :: mem(ret, s) && mem(rr.Machine.schema[s].Add, x))
 //@   loop 1 invariant visited:   forall v, a string :: mem(visited, v) ==> mem(ret, v) && (AddOf(rr, v, a) ==> mem(ret, a))
 //@   loop 1 invariant fix:       !changed ==> AddClosed(rr, ret)
 //@   loop 1 invariant defined:   SchemaRefs(rr.Machine.schema) && (forall x string :: mem(states, x) ==> has(rr.Machine.schema, x)) ==> (forall x string :: mem(ret, x) ==> has(rr.Machine.schema, x))
+//@   loop 1 invariant uncalled:  (forall x string :: mem(states, x) ==> Uncalled(rr.Transition, rr.Index, x)) ==> (forall x string :: mem(ret, x) ==> Uncalled(rr.Transition, rr.Index, x))
 //@   loop 2 let rs := ret
+//@   loop 2 invariant uncalled:  (forall x string :: mem(states, x) ==> Uncalled(rr.Transition, rr.Index, x)) ==> (forall x string :: mem(ret, x) ==> Uncalled(rr.Transition, rr.Index, x))
 //@   loop 2 invariant sup:       forall x string :: mem(states, x) ==> mem(ret, x)
 //@   loop 2 invariant grow:      forall x string :: mem(rs, x) ==> mem(ret, x)
 //@   loop 2 invariant justified: forall x string :: mem(ret, x) ==> mem(states, x) || (exists s string :: mem(ret, s) && mem(rr.Machine.schema[s].Add, x))
@@ -444,6 +449,7 @@ package machine
 //@                mem(ret, a) || mem(toRemove, a) || (exists r string :: mem(t.Machine.schema[a].Require, r) && !mem(ret, r))
 //@   ensures  from_survivors: forall x string :: mem(ret, x) ==> mem(survivors, x) || (exists s string :: has(t.Machine.schema, s) && mem(t.Machine.schema[s].Add, x))
 //@   ensures  removed_by_survivor: forall x string :: mem(toRemove, x) ==> (exists b string :: mem(survivors, b) && mem(t.Machine.schema[b].Remove, x))
+//@   ensures  remove_excludes: (forall x string :: mem(statesToSet, x) ==> Uncalled(t, index, x)) ==> (forall x string :: mem(ret, x) ==> Uncalled(t, index, x))
 //@   ensures  remove_consistent: forall s, b string :: mem(ret, s) && mem(ret, b) && s != b ==> !mem(t.Machine.schema[b].Remove, s)
 //@   ensures  remove_consistent_mod_resurrection: forall s, b string :: mem(ret, s) && mem(ret, b) && mem(t.Machine.schema[b].Remove, s) ==> !mem(survivors, b)
 //@   ensures  locks:   unlocked(t.Machine.schemaMx)
@@ -451,7 +457,8 @@ package machine
 //@   loop 1 invariant rm: forall j int, x string :: 0 <= j && j < idx1 && mem(t.Machine.schema[resolvedS[j]].Remove, x) ==> mem(toRemove, x)
 //@   loop 1 invariant mid_defined: forall x string :: mem(resolvedS, x) ==> has(t.Machine.schema, x)
 //@   loop 1 invariant mid_just: forall x string :: mem(resolvedS, x) ==> mem(old(statesToSet), x) || (exists s string :: has(t.Machine.schema, s) && mem(t.Machine.schema[s].Add, x))
-//@   loop 1 invariant mid_rr: rr.Machine == t.Machine && rr.Transition == t
+//@   loop 1 invariant mid_rr: rr.Machine == t.Machine && rr.Transition == t && rr.Index == index
+//@   loop 1 invariant mid_uncalled: (forall x string :: mem(old(statesToSet), x) ==> Uncalled(t, index, x)) ==> (forall x string :: mem(resolvedS, x) ==> Uncalled(t, index, x))
 //@   loop 1 invariant by: forall x string :: mem(toRemove, x) ==> (exists b string :: mem(resolvedS, b) && mem(t.Machine.schema[b].Remove, x))
 
 // ---- C20: values documented as copies are the caller's to modify ----
@@ -529,8 +536,11 @@ package machine
 //@   ensures  exits:  forall x string :: mem(t.Exits, x) <==> mem(t.Machine.activeStates, x) && !mem(tgt, x)
 //@   ensures  enters: forall x string :: mem(t.Enters, x) <==> mem(tgt, x) &&
 //@                      (!(!t.Machine.disposing && mem(t.Machine.stateNames, x) && mem(t.Machine.activeStates, x)) || (t.Machine.schema[x].Multi && mem(cld, x)))
+//@   ensures  nodup_exits:  nodup(t.Machine.activeStates) ==> nodup(t.Exits)
+//@   ensures  nodup_enters: nodup(tgt) ==> nodup(t.Enters)
 //@   loop 1 let tgt := targetStates
 //@   loop 1 let cld := *t.Mutation.cacheCalled
+//@   loop 1 invariant nodup: nodup(targetStates) ==> nodup(enters)
 //@   loop 1 invariant sel: forall x string :: mem(enters, x) <==> (exists j int :: 0 <= j && j < idx1 && targetStates[j] == x &&
 //@                      (!(!t.Machine.disposing && mem(t.Machine.stateNames, x) && mem(t.Machine.activeStates, x)) || (t.Machine.schema[x].Multi && mem(cld, x))))
 
@@ -750,6 +760,10 @@ package machine
 
 // Interface contracts of tracers (assumed of every implementation): callbacks
 // assign nothing of the machine; each call is counted.
+//@ func (tr Tracer) TransitionInit(transition *Transition)
+//@   trusted interface contract: tracer callbacks do not assign machine state
+//@   requires order: ghost.tStart == 0 && ghost.tFinals == 0 && ghost.tEnd == 0
+//@   ghostset tInit := ghost.tInit + 1
 //@ func (tr Tracer) TransitionStart(transition *Transition)
 //@   trusted interface contract: tracer callbacks do not assign machine state
 //@   requires order: ghost.tFinals == 0 && ghost.tEnd == 0
@@ -775,6 +789,7 @@ package machine
 //@   trusted interface contract; DefaultRelationsResolver.TargetStates is verified against these clauses
 //@   ensures nodup:   nodup(ret)
 //@   ensures defined: forall x string :: mem(ret, x) ==> has(t.Machine.schema, x)
+//@   ensures remove_excludes: (forall x string :: mem(calledStates, x) ==> Uncalled(t, index, x)) ==> (forall x string :: mem(ret, x) ==> Uncalled(t, index, x))
 //@ func (rr RelationsResolver) NewAutoMutation() (mut *Mutation, names S)
 //@   trusted interface contract; DefaultRelationsResolver.NewAutoMutation is verified against these clauses
 //@   ensures none: (mut == nil) <==> (len(names) == 0)
@@ -804,6 +819,51 @@ package machine
 //@   ensures  locks: unlocked(m.activeStatesMx)
 //@   loop 1 invariant eq: forall j int :: 0 <= j && j < i ==> m.clock[states[j]] == t[j]
 
+// MutOK: the called states of a mutation are registered and its index list
+// (Mutation.Called) agrees with the cached names.
+//@ pred MutOK(m *Machine, mut *Mutation) := mut.cacheCalled != nil && Known(m, *mut.cacheCalled) && len(mut.Called) == len(*mut.cacheCalled)
+//@      && (forall i int :: 0 <= i && i < len(mut.Called) ==> mut.Called[i] == index(m.stateNames, (*mut.cacheCalled)[i]))
+
+// A registered state is among the called names exactly when its index is
+// among the called indexes.
+//@ lemma called_index(names S, called []int, cc S, x string)
+//@   props C03
+//@   requires agree: len(called) == len(cc) && (forall i int :: 0 <= i && i < len(cc) ==> called[i] == index(names, cc[i]) && mem(names, cc[i]))
+//@   requires reg:   mem(names, x)
+//@   ensures  iff:   mem(called, index(names, x)) <==> mem(cc, x)
+//@   pattern mem(called, index(names, x)); mem(cc, x)
+
+//@ func randId(strlen int) (r string)
+//@   trusted random identifier text
+//@ func (m *Machine) SemLogger() (r SemLogger)
+//@   trusted logger configuration accessor
+//@   ensures nn: r != nil
+
+// Transition set-up: everything the executor (emitEvents) requires of a
+// transition is established here, the machine's clocks are not touched, and
+// every bound tracer is told once.
+//@ func newTransition(m *Machine, mut *Mutation) (t *Transition)
+//@   props C14 C01 C03 C05
+//@   abstracts tracer callbacks are opaque (assumed not to assign machine state)
+//@   uses called_index
+//@   requires nn:    m != nil && mut != nil && m.resolver != nil && m.subs != nil && machOf(m.resolver) == m
+//@   requires live:  !m.disposed && !m.disposing
+//@   requires mut:   MutOK(m, mut)
+//@   requires locks: unlocked(m.activeStatesMx) && unlocked(m.schemaMx) && unlocked(m.tracersMx) && unlocked(m.logEntriesLock)
+//@   requires inv:   ClockInv(m) && !isnil(m.clock) && SchemaInv(m) && SchemaRefs(m.schema) && !isnil(m.schema)
+//@   requires room:  forall s string :: m.clock[s] <= MaxU64 - 4
+//@   requires start: ghost.tStart == 0 && ghost.tFinals == 0 && ghost.tEnd == 0
+//@   requires tracers: forall i int :: 0 <= i && i < len(m.tracers) ==> m.tracers[i] != nil
+//@   assigns  m.t, m.tDbg, Machine.logEntries, DefaultRelationsResolver.Transition, DefaultRelationsResolver.Machine, DefaultRelationsResolver.Index, DefaultRelationsResolver.statesBefore, ghost.tInit
+//@   ensures  fresh:  t != nil && fresh(t) && t.Machine == m && t.Mutation == mut && m.t == t
+//@   ensures  before: len(t.TimeBefore) == len(m.stateNames) && (forall i int :: 0 <= i && i < len(t.TimeBefore) ==> t.TimeBefore[i] == m.clock[m.stateNames[i]])
+//@   ensures  tx:     TxInv(t) && TargetOK(t)
+//@   ensures  traced_init: ghost.tInit == old(ghost.tInit) + len(m.tracers)
+//@   ensures  locks:  unlocked(m.activeStatesMx) && unlocked(m.schemaMx) && unlocked(m.tracersMx)
+//@   loop 1 invariant len: len(tAfter) == len(m.stateNames)
+//@   loop 2 invariant len: len(tAfter) == len(m.stateNames)
+//@   loop 3 invariant count: ghost.tInit == old(ghost.tInit) + idx3
+
 // The transition executor.
 //@ func (t *Transition) emitEvents() (res Result)
 //@   props C01 C03 C05 C07 C14
@@ -825,9 +885,14 @@ package machine
 //@   ensures  auto_atmost1:  ghost.prepended <= old(ghost.prepended) + 1
 //@   ensures  nochange_noauto: !hasStateChanged ==> ghost.prepended == old(ghost.prepended)
 //@   ensures  inv:           ClockInv(t.Machine)
-//@   loop 1 invariant idx: 0 <= i
-//@   loop 3 invariant idx: 0 <= i
-//@   loop 4 invariant idx: 0 <= i
+//@   ensures  traced_start:  t.Machine.disposed || ghost.tStart == len(t.Machine.tracers)
+//@   ensures  traced_end:    t.Machine.disposed || ghost.tEnd == len(t.Machine.tracers)
+//@   ensures  traced_finals: ghost.tFinals == 0 || t.Machine.disposed || ghost.tFinals == len(t.Machine.tracers)
+//@   ensures  finals_applied: ghost.applied == old(ghost.applied) ==> ghost.tFinals == 0
+//@   ensures  finals_accepted: !t.Machine.disposed && !t.Machine.disposing && ghost.applied > old(ghost.applied) ==> ghost.tFinals == len(t.Machine.tracers)
+//@   loop 1 invariant idx: 0 <= i && ghost.tStart == i
+//@   loop 3 invariant idx: 0 <= i && ghost.tFinals == i
+//@   loop 4 invariant idx: 0 <= i && ghost.tEnd == i
 
 // ---- C03: mutation entry points: guards ----
 
